@@ -184,6 +184,25 @@ func directiveDefsDiffer(items [][]string) bool {
 	return false
 }
 
+// directiveConflicts: names of directives two services define differently (repeatable flag aside)
+func directiveConflicts(items [][]string) map[string]bool {
+	sig := map[string]string{}
+	out := map[string]bool{}
+	for _, it := range items {
+		for _, x := range it {
+			if strings.HasPrefix(x, "D|") {
+				parts := strings.Split(x, "|")
+				core := strings.Join(parts[:4], "|")
+				if s, ok := sig[parts[1]]; ok && s != core {
+					out[parts[1]] = true
+				}
+				sig[parts[1]] = core
+			}
+		}
+	}
+	return out
+}
+
 func hasRepeatable(items [][]string) bool {
 	for _, it := range items {
 		for _, x := range it {
@@ -209,7 +228,7 @@ func allHavePrefix(xs []string, pfx ...string) bool {
 }
 
 func c03Oracle(c mgCase, items [][]string, schemas []*ast.Schema, outs []mgOutcome) []hx.Failure {
-	var fails []hx.Failure
+	var fs failSet
 	union := map[string]bool{}
 	for _, it := range items {
 		for _, x := range coreItems(it) {
@@ -218,7 +237,7 @@ func c03Oracle(c mgCase, items [][]string, schemas []*ast.Schema, outs []mgOutco
 	}
 	for _, o := range outs {
 		if o.Outcome == "panic" {
-			fails = append(fails, hx.Failure{Kind: "property-fails", Detail: fmt.Sprintf("perm %v: the merger panicked: %s", o.Perm, o.Err), Impl: stripOutcome(o)})
+			fs.add("panic", hx.Failure{Kind: "property-fails", Detail: fmt.Sprintf("perm %v: the merger panicked: %s", o.Perm, o.Err), Impl: stripOutcome(o)})
 			continue
 		}
 		if o.Outcome != "ok" {
@@ -238,19 +257,6 @@ func c03Oracle(c mgCase, items [][]string, schemas []*ast.Schema, outs []mgOutco
 			}
 		}
 		missing = dedupSorted(hx.SortedStrings(missing))
-		if len(missing) > 0 {
-			f := hx.Failure{Kind: "property-fails", Detail: fmt.Sprintf("perm %v: declared by a service but missing from (or changed in) the merged schema: %v", o.Perm, missing), Impl: stripOutcome(o)}
-			switch {
-			case nodeDefsDiffer(items) && allHavePrefix(missing, "F|Node|", "A|Node|"):
-				f.Class = "C03-node-def-differs"
-			case directiveDefsDiffer(items) && allHavePrefix(missing, "D|"):
-				f.Class = "C03-directive-conflict"
-			case hasRepeatable(items) && allHavePrefix(missing, "D|") && allRepeatable(missing):
-				f.Class = "C03-repeatable-lost"
-			}
-			fails = append(fails, f)
-		}
-		// nothing invented
 		var invented []string
 		for x := range res {
 			if !union[x] {
@@ -258,12 +264,34 @@ func c03Oracle(c mgCase, items [][]string, schemas []*ast.Schema, outs []mgOutco
 			}
 		}
 		sort.Strings(invented)
-		if len(invented) > 0 {
-			f := hx.Failure{Kind: "property-fails", Detail: fmt.Sprintf("perm %v: in the merged schema but declared by no service: %v", o.Perm, invented), Impl: stripOutcome(o)}
-			if hasRepeatable(items) && allHavePrefix(invented, "D|") && len(missing) > 0 && allRepeatable(missing) {
-				f.Class = "C03-repeatable-lost" // the same directive, now without `repeatable`
+		// classify item by item against the documented classes of the open findings
+		conflictingDirs := directiveConflicts(items)
+		classOf := func(x string, isMissing bool) string {
+			parts := strings.Split(x, "|")
+			switch {
+			case (parts[0] == "F" || parts[0] == "A") && parts[1] == "Node" && nodeDefsDiffer(items) && isMissing:
+				return "C03-node-def-differs"
+			case parts[0] == "D" && conflictingDirs[parts[1]] && isMissing:
+				return "C03-directive-conflict"
+			case parts[0] == "D" && isMissing && strings.HasSuffix(x, "|true"):
+				return "C03-repeatable-lost"
+			case parts[0] == "D" && !isMissing && strings.HasSuffix(x, "|false") && union[strings.TrimSuffix(x, "false")+"true"]:
+				return "C03-repeatable-lost" // the same directive, printed without `repeatable`
 			}
-			fails = append(fails, f)
+			return ""
+		}
+		group := func(xs []string, isMissing bool) map[string][]string {
+			g := map[string][]string{}
+			for _, x := range xs {
+				g[classOf(x, isMissing)] = append(g[classOf(x, isMissing)], x)
+			}
+			return g
+		}
+		for cl, xs := range group(missing, true) {
+			fs.add("missing:"+cl, hx.Failure{Kind: "property-fails", Class: cl, Detail: fmt.Sprintf("perm %v: declared by a service but missing from (or changed in) the merged schema: %v", o.Perm, xs), Impl: stripOutcome(o)})
+		}
+		for cl, xs := range group(invented, false) {
+			fs.add("invented:"+cl, hx.Failure{Kind: "property-fails", Class: cl, Detail: fmt.Sprintf("perm %v: in the merged schema but declared by no service: %v", o.Perm, xs), Impl: stripOutcome(o)})
 		}
 		// Node types: once, with the union of the fields
 		nodeFields := map[string]map[string]bool{}
@@ -288,7 +316,7 @@ func c03Oracle(c mgCase, items [][]string, schemas []*ast.Schema, outs []mgOutco
 		for n, want := range nodeFields {
 			d := o.schema.Types[n]
 			if d == nil {
-				fails = append(fails, hx.Failure{Kind: "property-fails", Detail: fmt.Sprintf("perm %v: Node type %s is missing from the merged schema", o.Perm, n)})
+				fs.add("node-union", hx.Failure{Kind: "property-fails", Detail: fmt.Sprintf("perm %v: Node type %s is missing from the merged schema", o.Perm, n)})
 				continue
 			}
 			got := map[string]int{}
@@ -297,19 +325,19 @@ func c03Oracle(c mgCase, items [][]string, schemas []*ast.Schema, outs []mgOutco
 			}
 			for f := range want {
 				if got[f] != 1 {
-					fails = append(fails, hx.Failure{Kind: "property-fails", Detail: fmt.Sprintf("perm %v: Node type %s: field %s occurs %d times in the merged type (want once)", o.Perm, n, f, got[f])})
+					fs.add("node-union", hx.Failure{Kind: "property-fails", Detail: fmt.Sprintf("perm %v: Node type %s: field %s occurs %d times in the merged type (want once)", o.Perm, n, f, got[f])})
 				}
 			}
 			for f := range got {
 				if !want[f] {
-					fails = append(fails, hx.Failure{Kind: "property-fails", Detail: fmt.Sprintf("perm %v: Node type %s: field %s declared by no service", o.Perm, n, f)})
+					fs.add("node-union", hx.Failure{Kind: "property-fails", Detail: fmt.Sprintf("perm %v: Node type %s: field %s declared by no service", o.Perm, n, f)})
 				}
 			}
 		}
 		// an operation valid for one service stays valid: every root field of every service is selectable
 		// (covered by the superset check on F|Query|…, F|Mutation|…, F|Subscription|… and their arguments)
 	}
-	return fails
+	return fs.list
 }
 
 func allRepeatable(xs []string) bool {
